@@ -100,9 +100,11 @@ def run(ctx, pid):
                                                timeout=300 * scale, env={'VERIF_TIME_SCALE': str(scale)})
             if rc2 != 0 or not again:
                 break
-            _, v2 = monitor.check('Shutdown', again, invariants=sorted(still), constants=consts)
-            still &= set(x['name'] for x in v2)
-            if not still:
+            # (a broken scenario may fail differently each time -- hang once, take the host down the
+            #  next: any falsified formula of the property confirms it)
+            _, v2 = monitor.check('Shutdown', again, invariants=forms, constants=consts)
+            if not v2:
+                still = set()
                 break
         for name in sorted(names):
             if name in still:
